@@ -462,7 +462,7 @@ func runC03(r *mon.Run) {
 	})
 
 	// --- drift histories: results are reused without rescaling ------------------
-	r.Require("c03:drift:through-inf", "c03:drift:doubling-via-add")
+	r.Require("c03:drift:through-inf", "c03:drift:doubling-via-add", "c03:drift:reset:Identity", "c03:drift:reset:SetBytes(identity)", "c03:drift:reset:Generator", "c03:drift:reset:decode")
 	steps := r.N(150, 600)
 	r.Each("c03/drift", r.N(120, 3000), func(w *mon.W, i int) {
 		rng := w.Rng
@@ -476,9 +476,56 @@ func runC03(r *mon.Run) {
 		}
 		for s := 0; s < steps; s++ {
 			d, a, b := rng.Intn(regs), rng.Intn(regs), rng.Intn(regs)
-			op := rng.Intn(10)
+			op := rng.Intn(14)
 			var want *oracle.Pt
 			switch op {
+			case 10, 11, 12, 13:
+				// the in-place setters on a register WITH A PAST (whatever the object held before -
+				// an affine point from a decoder, a projective result - and whatever per-object
+				// hint went with it must be gone afterwards)
+				switch op {
+				case 10:
+					want = oracle.Infinity()
+					w.Trace("r%d.Identity()", d)
+					lib[d].Identity()
+					w.Class("c03:drift:reset:Identity")
+				case 11:
+					want = oracle.Infinity()
+					w.Trace("r%d.SetBytes({0x00})", d)
+					if _, err := lib[d].SetBytes([]byte{0x00}); err != nil {
+						w.Fail("c03/drift:SetBytes", "SetBytes({0x00}) failed: "+err.Error())
+						return
+					}
+					w.Class("c03:drift:reset:SetBytes(identity)")
+				case 12:
+					want = oracle.G()
+					w.Trace("r%d.Generator()", d)
+					lib[d].Generator()
+					w.Class("c03:drift:reset:Generator")
+				default:
+					P := pool[rng.Intn(np)]
+					if P.P.Inf {
+						P = pool[1]
+					}
+					want = P.P
+					var err error
+					switch rng.Intn(3) {
+					case 0:
+						w.Trace("r%d.SetCompressedBytes(%s)", d, P.Name)
+						_, err = lib[d].SetCompressedBytes(oracle.EncodeCompressed(P.P))
+					case 1:
+						w.Trace("r%d.SetUncompressedBytes(%s)", d, P.Name)
+						_, err = lib[d].SetUncompressedBytes(oracle.EncodeUncompressed(P.P))
+					default:
+						w.Trace("r%d.SetBytes(%s)", d, P.Name)
+						_, err = lib[d].SetBytes(oracle.EncodeUncompressed(P.P))
+					}
+					if err != nil || want.Inf {
+						w.Fail("c03/drift:decode", fmt.Sprintf("decoding a valid encoding of %s into a reused register failed: %v", P.Name, err))
+						return
+					}
+					w.Class("c03:drift:reset:decode")
+				}
 			case 7:
 				ctrl := gen.Pick(rng, gen.CtrlValues...)
 				want = abs[a]
